@@ -19,7 +19,7 @@ from . import absmodel, core, tlc
 FEATURES = ["docstring", "future_import", "comments", "decorators", "nested_defs", "partial_annotations", "typing_import",
             "import_module_runtime", "import_alias", "import_in_function", "existing_tc_block", "star_import", "import_dotted",
             "class_level_code", "module_level_code", "respelled_annotations", "wordy_annotations", "relative_import",
-            "tc_import_in_try", "tc_import_in_function", "reexport_alias_import", "posonly_then_kwonly_params"]
+            "tc_import_in_try", "tc_import_in_function", "reexport_alias_import", "posonly_then_kwonly_params", "fallback_import_in_try"]
 
 
 def gen_source(feat):
@@ -45,6 +45,8 @@ def gen_source(feat):
         L.append("from .zshapes import Circle")     # the package's own zshapes module, used at run time
     elif "reexport_alias_import" in f:
         L.append("from zshapes import Circle as Circle")     # the re-export idiom; the name is used at run time
+    elif "fallback_import_in_try" in f:                      # one name, two candidate sources: the first one wins here
+        L += ["try:", "    from zshapes import Circle", "except ImportError:", "    from zshapes_compat import Circle"]
     if "star_import" in f:
         L.append("from zsh.deep import *")
     if "import_dotted" in f:
@@ -69,7 +71,7 @@ def gen_source(feat):
         L.append("    y = zshapes.area(x)")
     if "import_alias" in f:
         L.append("    z = C()")
-    if "relative_import" in f or "reexport_alias_import" in f:
+    if "relative_import" in f or "reexport_alias_import" in f or "fallback_import_in_try" in f:
         L.append("    zz = Circle()")
     if "nested_defs" in f:
         L += ["    def inner(q):", "        return q", "    x = inner(x)"]
@@ -157,10 +159,20 @@ def runtime_names(tree):
     return names
 
 
-def erase(tree, new_keys, generated_classes):
+def erase(tree, new_keys, generated_classes, surplus=None):
     """The tree with parameter / return annotations, newly added imports, generated TypedDict classes and the
     TYPE_CHECKING scaffolding that only holds new imports erased."""
     t = _StripAnn().visit(copy.deepcopy(tree))
+    surplus = dict(surplus or {})      # import items the result has MORE often than the source (an added duplicate): the
+                                       # first occurrences are the added ones
+
+    def is_new(k):
+        if k in new_keys:
+            return True
+        if surplus.get(k, 0) > 0:
+            surplus[k] -= 1
+            return True
+        return False
 
     def key(a, node, block):
         if isinstance(node, ast.Import):
@@ -171,7 +183,7 @@ def erase(tree, new_keys, generated_classes):
         out = []
         for node in body:
             if isinstance(node, (ast.Import, ast.ImportFrom)):
-                node.names = [a for a in node.names if key(a, node, block) not in new_keys]
+                node.names = [a for a in node.names if not is_new(key(a, node, block))]
                 if node.names:
                     out.append(node)
                 continue
@@ -408,7 +420,11 @@ def run_case(case):
         new_keys = {(i["kind"], i["module"], i["name"], i["alias"], i["block"]) for i in res_items} - skey
         generated = {n.name for n in stt.body if isinstance(n, ast.ClassDef) and any(ast.unparse(b).startswith("TypedDict") or "TypedDict" in ast.unparse(b) for b in n.bases)}
         generated |= {n.name for n in stt.body if isinstance(n, ast.ClassDef) and n.name.endswith("NonTotal")}
-        rec["erasure"] = erase(st, set(), set()) == erase(rt, new_keys, generated)
+        import collections as _c
+        k5 = lambda i: (i["kind"], i["module"], i["name"], i["alias"], i["block"])  # noqa: E731
+        extra = _c.Counter(k5(i) for i in res_items) - _c.Counter(k5(i) for i in src_items)
+        surplus = {k: n for k, n in extra.items() if k in skey}
+        rec["erasure"] = erase(st, set(), set()) == erase(rt, new_keys, generated, surplus)
         rec["positions"] = positions(st, stt, rt)
         body = [n for n in rt.body if not (isinstance(n, ast.Expr) and isinstance(getattr(n, "value", None), ast.Constant)
                                           and isinstance(n.value.value, str))]
@@ -632,6 +648,15 @@ def signature(clause, rec, case):
         sig.pop("source_imports_deleted")
     if clause in ("RuntimeNeedsAtRuntime", "Importable", "ConfinedOnlyNewAnnotationOnly", "SameBehaviour"):
         sig["typeddict_import_confined"] = any(j["block"] == "tc" and j["name"] == "TypedDict" and j["runtime"] for j in rec["res_imports"])
+    if clause == "ConfinedAllNew":
+        skey = {(i["kind"], i["module"], i["name"], i["alias"]) for i in rec["src_imports"]}
+        off = [j for j in rec["res_imports"] if (j["kind"], j["module"], j["name"], j["alias"]) not in skey and j["block"] != "tc"
+               and not j.get("runtime") and j["module"] not in ("typing", "__future__")]
+        stubm = {s2["module"] for s2 in rec["stub_imports"]}
+        if off and all(j["kind"] == "import" and j["module"] in stubm for j in off):
+            # libcst could not use the stub's `from m import X` (X is bound differently, or twice, in the source): it added
+            # `import m` and wrote `m.X`; MonkeyType only confines the imports the STUB lists, so this one stays at run time
+            sig["module_import_added_by_libcst_for_a_clashing_name"] = True
     if clause == "Idempotent":
         sig["overwrite"] = case["overwrite"]
         sig["second_application_adds"] = rec.get("idem_delta", "")
